@@ -51,6 +51,7 @@ type frame struct {
 	defers []ast.Node // *ast.CallExpr (deferred call), in registration order
 	depth  int
 	fresh  map[types.Object]bool
+	resEsc bool // the results of this activation are returned to the method's caller
 }
 
 type walker struct {
@@ -67,6 +68,7 @@ type walker struct {
 	litStack  []*ast.FuncLit
 	ephemeral bool
 	escaped   []*ast.FuncLit
+	escNext   bool // the call being evaluated is the operand of an escaping return
 	collect   bool // pre-pass: only collect writes
 }
 
@@ -158,7 +160,7 @@ func analyse(p *packages.Package) []entry {
 	for _, fn := range fns {
 		w.held, w.segs, w.stack, w.escaped, w.ephemeral = nil, nil, nil, nil, false
 		w.newSeg()
-		w.inlineDecl(fn, 0)
+		w.inlineDecl(fn, 0, true)
 		for len(w.escaped) > 0 { // closures returned to the caller run after the method returned
 			l := w.escaped[0]
 			w.escaped = w.escaped[1:]
@@ -493,7 +495,19 @@ func (w *walker) finish() []*seg {
 
 // ---------------------------------------------------------------- walking code
 
-func (w *walker) inlineDecl(fn *types.Func, depth int) {
+func isCall(e ast.Expr) bool {
+	for {
+		p, ok := e.(*ast.ParenExpr)
+		if !ok {
+			break
+		}
+		e = p.X
+	}
+	_, ok := e.(*ast.CallExpr)
+	return ok
+}
+
+func (w *walker) inlineDecl(fn *types.Func, depth int, resEsc bool) {
 	for _, f := range w.stack {
 		if f == fn {
 			return // recursion: the accesses are those of the outer activation
@@ -504,7 +518,7 @@ func (w *walker) inlineDecl(fn *types.Func, depth int) {
 		return
 	}
 	w.stack = append(w.stack, fn)
-	fr := &frame{depth: depth, fresh: map[types.Object]bool{}}
+	fr := &frame{depth: depth, fresh: map[types.Object]bool{}, resEsc: resEsc}
 	term := w.block(fd.Body.List, fr)
 	if !term {
 		w.runDefers(fr, false)
@@ -620,11 +634,20 @@ func (w *walker) stmt(s ast.Stmt, fr *frame) bool {
 			}
 		}
 	case *ast.ReturnStmt:
+		// a function literal that is returned by the method runs after the method returned; so does
+		// one returned by an inlined callee whose result the method returns in turn
+		// (return mapKeysIter(...)): its accesses are not covered by the locks held here.  A literal
+		// returned by a callee to a caller that uses it on the spot stays attributed to the caller.
 		for _, r := range s.Results {
-			if fr.depth == 0 {
-				w.exprEsc(r, fr)
-			} else {
+			switch {
+			case fr.depth != 0 && !fr.resEsc:
 				w.expr(r, fr)
+			case isCall(r):
+				w.escNext = true
+				w.expr(r, fr)
+				w.escNext = false
+			default:
+				w.exprEsc(r, fr)
 			}
 		}
 		// is this the last statement of the function body (fall-through end) or an early return?
@@ -852,6 +875,9 @@ func (w *walker) expr(e ast.Expr, fr *frame) {
 }
 
 func (w *walker) call(c *ast.CallExpr, fr *frame) {
+	// does the value of this call flow straight into the method's own result?
+	esc := w.escNext
+	w.escNext = false
 	// conversion?
 	if tv, ok := w.info.Types[c.Fun]; ok && tv.IsType() {
 		for _, a := range c.Args {
@@ -946,7 +972,7 @@ func (w *walker) call(c *ast.CallExpr, fr *frame) {
 		w.expr(a, fr)
 	}
 	if callee != nil && callee.Pkg() == w.pkg.Types {
-		w.inlineDecl(callee, fr.depth+1)
+		w.inlineDecl(callee, fr.depth+1, esc)
 	}
 }
 
